@@ -157,6 +157,9 @@ class RNGModel:
                 _State.__init__(self, model, model.seed_token(seed))
 
         self.RandomState = RandomState
+        # np.random.mtrand._rand is the singleton behind the module-level functions
+        import types
+        self.mtrand = types.SimpleNamespace(_rand=self.glob, RandomState=RandomState)
 
     def seed_token(self, seed):
         if seed is None:
